@@ -478,7 +478,14 @@ def build_case(meta, row, init_rows=None, dump=None):
             ssx.append("SSX %s %s %s %s [%s]" % ("true" if meta["ss"]["ideal"] else "false", "true" if gap else "false", q(d["a0"]), q(d["a1"]),
                                                 "; ".join("SSXC %s %s %s %s %s" % tuple(q(v) for v in x[1:]) for x in xs)))
             items.append(("ssx", meta["ss"]["ideal"], gap, d["a0"], d["a1"], xs))
-    term = "CASE [%s] [%s] [%s] [%s] [%s]" % ("; ".join(pps), "; ".join(exs), "; ".join(sfs), "; ".join(sss), "; ".join(ssx))
+    ssabs = []
+    if d and d.get("ss_in") == 0.0:
+        stored = [c.get("moles") for c in d["comps"].values()]
+        if stored and all(_num(v) for v in stored):
+            tot = sum(Fraction(v) for v in stored)
+            ssabs.append(q(tot))
+            items.append(("ssabs", float(tot)))
+    term = "CASE [%s] [%s] [%s] [%s] [%s] [%s]" % ("; ".join(pps), "; ".join(exs), "; ".join(sfs), "; ".join(sss), "; ".join(ssx), "; ".join(ssabs))
     return term, items
 
 
@@ -501,6 +508,9 @@ def py_verdict(items):
             _, nm, d, f = it
             if abs(f - d) > 1e-8 * d:
                 bad.append((it[0], "%s %s: defined %r, sum of occupied equivalents %r" % (it[0], nm, d, f)))
+        elif it[0] == "ssabs":
+            if it[1] > 1e-12:
+                bad.append(("ssabs", "solid solution left out of the equations (ss_in = 0) although it holds %r mol" % it[1]))
         elif it[0] == "ssx":
             _, ideal, gap, a0, a1, xs = it
             tot = sum(x[1] for x in xs)
@@ -610,7 +620,7 @@ def evaluate(ctx, jobs):
         m = j["meta"]
         fp = [j["db"], len(m["pps"]), sorted(p["kind"] for p in m["pps"]), (m["exch"] or {}).get("mode"), (m["surf"] or {}).get("mode"), bool(m["ss"]),
               [it[5] > 0 for it in items if it[0] == "pp"]]
-        ctx.case(fp + [j["id"]], sample={"database": j["db"], "input": j["text"][:600], "reported": {k: v for k, v in row.items() if isinstance(v, float)}})
+        ctx.case(fp, nontrivial=any(it[0] != "pp" or it[5] > 0 for it in items), sample={"database": j["db"], "input": j["text"][:600], "reported": {k: v for k, v in row.items() if isinstance(v, float)}})
         if not ok:
             bad = py_verdict(items) or [("?", "case rejected by the verified checker")]
             key = finding_key(j, m, bad)
